@@ -10,6 +10,7 @@ RULE = ('fixed corpus of request scenarios covering every request type (Discover
         'continuation is run in parallel on a never-used interface. Oracles: no crash / sanitizer report, no release of foreign memory; after the Reset exactly the interface records are live; '
         'post-Reset reactions identical to the fresh interface; automata constructors under failing allocations return NULL or a complete object. '
         'distinct = distinct (scenario, fault kind, k) triples')
+_baseline = {}
 def corpus(rng):
     """-> [(name, cfg-lines, frame-lines)] for interface 0"""
     own = OWN0; M = mac(1); res = []
@@ -101,6 +102,7 @@ def oracle(name, ib, mb, meta):
                     fails.append((i, 'enumeration constructor returned an automaton without its RepeatBand state'))
         return fails
     cleared = False; prev = None; after_reset = 0
+    base = name.partition('~')[0]; finals = []
     for i, b in enumerate(ib):
         if b.op.startswith('failsend clear'): cleared = True; continue
         if not cleared or not b.op.startswith('frame'): continue
@@ -108,12 +110,20 @@ def oracle(name, ib, mb, meta):
         d = dec(bytes.fromhex(t[3]) + bytes(36))
         if d['opc'] == 8 and t[1] == '1':
             # both interfaces have just been reset: exactly the two interface records may be live
-            if b.kv.get('live') != '2':
-                fails.append((i, 'after the fault cleared and a Reset was received %s allocations are live; only the 2 interface records may remain (leak or lost record)' % b.kv.get('live')))
+            finals.append((i, b.kv.get('live')))
         if t[1] == '1' and prev is not None and prev[0].split()[2:] == t[2:] and d['opc'] != 8:
             if strip(prev[1]) != strip(b.acts):
                 fails.append((i, 'after fault + Reset the reaction to "%s..." differs from that of a fresh interface (%d vs %d port calls)' % (t[3][:40], len(prev[1]), len(b.acts))))
         prev = (b.op, b.acts) if t[1] == '0' else None
+    # nothing may be lost or left behind BECAUSE of the fault: after fault + Reset exactly as much is allocated as after the
+    # same requests + Reset without any fault (first scenario of each family)
+    if not meta.get('shrinking') and finals:
+        # compared at the very end (both interfaces have been used and reset again), where the record allocation that an
+        # injected fault may have delayed has certainly happened
+        if name.endswith('~nofault'): _baseline[base] = finals[-1][1]
+        elif base in _baseline and finals[-1][1] != _baseline[base]:
+            fails.append((finals[-1][0], 'after the fault cleared, further traffic and a final Reset %s allocations are live, %s without the fault: memory was leaked (or an interface record lost) under the injected fault' % (
+                finals[-1][1], _baseline[base])))
     return fails
 def count(name, lines, ib, stats, meta):
     stats['evaluations'] += 1
